@@ -4,6 +4,7 @@
 #include "model.hpp"
 #include "ops.hpp"
 
+#include <functional>
 #include <map>
 #include <string>
 #include <vector>
@@ -59,6 +60,13 @@ struct ExecOpts {
     bool keep_log = false;
     bool stop_at_first = true; // stop at the first violation
     bool watch_isolation = false;
+    // "solo" differential (C14): runs a plan restricted to one policy in a
+    // pristine process and returns its outcome tables; provided by the
+    // command-line front-end (a fork server started before any plan ran)
+    std::function<bool(
+        const Plan&,
+        std::map<std::string, std::map<std::string, std::string>>&)>
+        solo;
     std::string focus; // property under check: stop at its first violation;
                        // violations of other properties are recorded and
                        // the run goes on (unless continuing could crash)
@@ -82,6 +90,9 @@ struct Session {
     struct Impl;
     Impl* impl;
 };
+
+// the plan restricted to the records and events of one policy
+Plan restrict_to_policy(const Plan& p, int pi);
 
 // differential wrappers: run the plan and the counterparts derived from it
 RunResult run_plan(const Plan& plan, const ExecOpts& opts);
